@@ -9,6 +9,7 @@ import Zed.Proofs.ZngTypes
 import Zed.Proofs.ZngFrames
 import Zed.Proofs.ZngScanner
 import Zed.Proofs.ZngRoundtrip
+import Zed.Proofs.ZngPeeker
 namespace Zed.Props.C01
 open Zed.Zng Zed.Generated.C01
 
@@ -172,6 +173,46 @@ example :
   refine ⟨?_, ?_⟩
   · intro b z h; simp at h; simp [h]
   · decide
+
+/-- a concrete, fully evaluated instance of all hypotheses: an array value, an end-of-stream
+    marker, a null of another type from a second context, frame threshold 1, no compression -/
+theorem roundtripOk_example : RoundtripOk ⟨false, 1⟩ ⟨1000, false⟩ (fun _ => none)
+    [.write ⟨0, .array (.prim 9), some [2, 2]⟩, .endStream, .write ⟨1, .prim 25, none⟩] := by
+  refine ⟨by decide, ?_, ?_, ?_⟩ <;>
+    simp (config := { decide := true }) [writeAll, WSt.run, WSt.step, encTy, WSt.addValue, WSt.flush, WSt.writeBlock, flushCond, blockSmall, blockMax,
+      bodySmall, two63, uvarint_small, zappend, toTag, tagNull, EncSt.finish, EncSt.put, EncSt.putUv, Ctx.enter, Ctx.find, typeDefArray, idTypeComplex,
+      typesFrame, valuesFrame]
+
+/-- … to which `zng_roundtrip` applies -/
+example : (readAll ⟨1000, false⟩ (fun _ _ => none)
+    (writeAll ⟨false, 1⟩ (fun _ => none) [.write ⟨0, .array (.prim 9), some [2, 2]⟩, .endStream, .write ⟨1, .prim 25, none⟩]).out).vals
+    = [⟨.array (.prim 9), some [2, 2]⟩, ⟨.prim 25, none⟩] :=
+  (zng_roundtrip _ _ _ _ (by intro b z h; cases h) _ roundtripOk_example).1
+
+/-! ## read buffer -/
+
+/-- **read_buffer_independent.**  `pkg/peeker` with the chunking of the underlying reader made
+    explicit (`Peeker.PState`: buffered bytes + the chunks the source will still deliver, any
+    number, any sizes — whatever `ReaderOpts.Size` and the `io.Reader` do): every client that asks
+    for single bytes and for blocks of at most `limit` bytes (readmax ≥ largest frame), looks at the
+    answers and stops at the first failure — which is how `parser.read` uses the peeker — computes
+    the same result as on the unchunked input. -/
+theorem read_buffer_independent {α : Type} (limit : Nat) (hl : 1 ≤ limit) (p : Peeker.Prog α)
+    (hb : p.Bounded limit) (buffered : Bytes) (chunks : List Bytes) :
+    p.runP limit ⟨buffered, chunks, false⟩ = p.runL limit (buffered ++ chunks.flatten) :=
+  Peeker.prog_sim limit hl p ⟨buffered, chunks, false⟩ _ ⟨rfl, rfl⟩ hb
+
+/-- instance: the frame reader (`parser.readFrame`: length varint byte by byte, limit test,
+    payload) returns the same payload or the same failure as the model's `readPlainFrame`, for every
+    chunking of the input -/
+theorem readFrame_chunk_independent (o : ROpts) (hl : 1 ≤ o.maxSize) (code : Nat) (buffered : Bytes) (chunks : List Bytes) :
+    (Peeker.plainFrameProg o code).runP o.maxSize ⟨buffered, chunks, false⟩ =
+      Peeker.frameAnswer (readPlainFrame o code (buffered ++ chunks.flatten)) := by
+  rw [read_buffer_independent o.maxSize hl _ (Peeker.plainFrameProg_bounded o code)]
+  exact Peeker.plainFrameProg_runL o code _
+
+/-- non-vacuity: three chunks of one byte each -/
+example : (Peeker.plainFrameProg ⟨16, false⟩ 0x12).runP 16 ⟨[], [[0], [7], [9]], false⟩ = .ok [7, 9] := by rfl
 
 /-! ## threaded scanner -/
 
